@@ -63,26 +63,26 @@ enum Op : unsigned {
 constexpr OpInfo info(Op op)
 {
     switch (op) {
-    case eEmplace: return {"emplace(args)", aV};
-    case eAssignConst: return {"operator=(expected const&)", aY};
-    case eAssignRv: return {"operator=(expected&&)", aY};
-    case eSelfCopyAssign: return {"operator=(self const&)", 0};
+    case eEmplace: return {"emplace(args)", aV | aM};
+    case eAssignConst: return {"operator=(expected const&)", aY | aM};
+    case eAssignRv: return {"operator=(expected&&)", aY | aM};
+    case eSelfCopyAssign: return {"operator=(self const&)", aM};
     case eCopyCtor: return {"ctor(expected const&)", 0};
-    case eMoveCtor: return {"ctor(expected&&)", 0};
+    case eMoveCtor: return {"ctor(expected&&)", aM};
     case eCtorInPlace: return {"ctor(in_place,args)", aV};
     case eCtorUnexpect: return {"ctor(unexpect,args)", aV};
     case eCtorDefault: return {"ctor()", 0};
-    case eSwapAdl: return {"swap(a,b)", aY};
-    case eSwapMember: return {"swap(other)", aY};
-    case eSwapSelf: return {"swap(self,self)", 0};
+    case eSwapAdl: return {"swap(a,b)", aY | aM};
+    case eSwapMember: return {"swap(other)", aY | aM};
+    case eSwapSelf: return {"swap(self,self)", aM};
     case eValueOrConst: return {"value_or(d) const&", aV};
-    case eValueOrRv: return {"value_or(d) &&", aV};
-    case eAndThen: return {"and_then(f)", aQ4 | aF};
-    case eOrElse: return {"or_else(f)", aQ4 | aF};
+    case eValueOrRv: return {"value_or(d) &&", aV | aM};
+    case eAndThen: return {"and_then(f)", aQ4 | aF | aM};
+    case eOrElse: return {"or_else(f)", aQ4 | aF | aM};
     case eDeref: return {"operator* / operator-> / error()", 0};
     case eEquality: return {"operator==", aY};
-    case eAssignValue: return {"operator=(U&&) value", aV};
-    case eAssignUnexpected: return {"operator=(unexpected)", aV};
+    case eAssignValue: return {"operator=(U&&) value", aV | aM};
+    case eAssignUnexpected: return {"operator=(unexpected)", aV | aM};
     case eCtorValue: return {"ctor(U&&) value", aV};
     case eCtorUnexpected: return {"ctor(unexpected)", aV};
     case eValue: return {"value()", aQ4};
@@ -472,6 +472,10 @@ struct ExpWorld {
 struct ExpSubject {
     static constexpr Table table   = make_table();
     static constexpr unsigned kOps = table.n;
+    static bool is_mutator(unsigned w) { return (info(table.ops[w]).args & aM) != 0; }
+    static constexpr Mutators<Table, OpInfo (*)(Op)> muts{table, &info};
+    static unsigned n_mutators() { return muts.n; }
+    static unsigned mutator_at(unsigned k) { return muts.idx[k]; }
     ExpWorld<Std> s;
     ExpWorld<Etl> e;
     std::uint64_t nh = vf::fnv(kName);
